@@ -90,7 +90,8 @@ Proof. intros Hn H. unfold step. rewrite Hn, H. reflexivity. Qed.
 
 Definition serving (p : phase) : bool :=
   match p with
-  | InReqMod | InRoundTrip | InResMod | PreDecide | Decided _ | Writing _ => true
+  | InReqMod | InRoundTrip | InResMod | PreDecide | Decided _ | Writing _
+  | CDecided | CWriting => true
   | _ => false
   end.
 
@@ -148,7 +149,7 @@ Qed.
 (* ---------------- S3: nothing is served after a marked response ------ *)
 
 Definition after_marked (p : phase) : bool :=
-  match p with Writing true | Written | SockClosed | Finished | Broken => true | _ => false end.
+  match p with Writing true | Written | SockClosed | Finished | Broken | CWriting | Tunnel => true | _ => false end.
 
 Lemma exec_marked_last : forall tr s s', Inv s -> run s tr = Some s' -> ok_marked_last tr = true.
 Proof.
@@ -156,7 +157,7 @@ Proof.
   simpl in Hrun. destruct (step s x) as [m|] eqn:Hs; [|discriminate].
   rewrite (IH m s' (inv_step _ _ _ Hi Hs) Hrun), andb_true_r.
   destruct (match x with Conn _ (WriteHead true) => true | _ => false end) eqn:Ex.
-  - destruct x as [|c k| | | | |]; try discriminate. destruct k as [| | | | | | | |mm| | | |?|?| | |]; try discriminate.
+  - destruct x as [|c k| | | | |]; try discriminate. destruct k as [| | | | | | | |mm| | | |?|?| | | |]; try discriminate.
     destruct mm; try discriminate.
     apply after_conn_step in Hs as Hs'. destruct Hs' as (cn & p' & Hn & Hc & Hn').
     apply (never_generic after_marked false c (s3_bad (Conn c (WriteHead true))))
@@ -164,15 +165,16 @@ Proof.
     + intros cl lk p k p'0 _ H HP. cstep_cases H; simpl in *; auto; discriminate.
     + intros s0 cn0 l _ Hn0 HP Ht. simpl in Ht. apply is_conn_eq in Ht. subst.
       eapply step_disabled; eauto. intros cl lk.
-      destruct (ph cn0) as [| | | | | | | |mm|mm| | | |]; simpl in *; try discriminate; reflexivity.
+      destruct (ph cn0) as [| | | | | | | |mm|mm| | | | | | |]; simpl in *; try discriminate; reflexivity.
     + eapply inv_step; eauto.
     + discriminate.
     + exact Hn'.
-    + simpl. destruct (ph cn) as [| | | | | | | |mm|mm| | | |]; simpl in Hc; try discriminate.
-      destruct mm; simpl in Hc; inversion Hc; reflexivity.
+    + simpl. destruct (ph cn); simpl in Hc; try discriminate;
+        repeat match goal with b : bool |- _ => destruct b end;
+        simpl in Hc; try discriminate; inversion Hc; reflexivity.
     + exact Hrun.
   - apply forallb_const_true. intros y. destruct x as [|c k| | | | |]; try reflexivity.
-    destruct k as [| | | | | | | |mm| | | |?|?| | |]; try reflexivity. destruct mm; try reflexivity; discriminate.
+    destruct k as [| | | | | | | |mm| | | |?|?| | | |]; try reflexivity. destruct mm; try reflexivity; discriminate.
 Qed.
 
 (* ---------------- S2: closing seen before the decision => marked ----- *)
@@ -200,7 +202,7 @@ Proof.
         repeat match goal with b : bool |- _ => destruct b end; simpl in *; auto; discriminate.
     + intros s0 cn0 l _ Hn0 HP Ht. simpl in Ht. apply is_conn_eq in Ht. subst.
       eapply step_disabled; eauto. intros cl lk.
-      destruct (ph cn0) as [| | | | | | | |mm|mm| | | |]; simpl in *; try discriminate; try reflexivity.
+      destruct (ph cn0) as [| | | | | | | |mm|mm| | | | | | |]; simpl in *; try discriminate; try reflexivity.
       destruct mm; simpl in *; try discriminate; reflexivity.
     + eapply inv_step; eauto.
     + intros _. exact Hclm.
